@@ -20,8 +20,18 @@ func init() { passes = append(passes, emitCtxLockSites) }
 type clEvent string
 
 type clMethod struct {
-	name  string
-	paths [][]clEvent
+	name   string
+	paths  [][]clEvent
+	fpaths [][]clEvent // the same paths as lock operations and foreign / blocking operations only
+}
+
+// parameters of the method being walked whose type is not a basic or slice type (an interface such as
+// FContext, a channel, a function): code of the caller runs, or the goroutine may block, when they are used
+var clForeignParams = map[string]bool{}
+
+func clMentionsForeign(e ast.Expr) bool {
+	id, ok := e.(*ast.Ident)
+	return ok && clForeignParams[id.Name]
 }
 
 var clGuardedMaps = map[string]bool{"requestHeaders": true, "responseHeaders": true, "ephemeralProperties": true, "channels": true}
@@ -52,7 +62,21 @@ func clExprEvents(recv string, locked map[string]bool, e ast.Node, write bool, o
 					*out = append(*out, "CRead")
 				}
 			}
+		case *ast.SendStmt:
+			// a channel send may block for as long as the receiver pleases
+			*out = append(*out, "FForeign")
 		case *ast.CallExpr:
+			// a method of a caller-supplied value, or a function handed one: the caller's code runs
+			if sel, ok := x.Fun.(*ast.SelectorExpr); ok && clMentionsForeign(sel.X) {
+				*out = append(*out, "FForeign")
+			} else if id, ok := x.Fun.(*ast.Ident); !ok || (id.Name != "len" && id.Name != "cap" && id.Name != "delete" && id.Name != "make") {
+				for _, a := range x.Args {
+					if clMentionsForeign(a) {
+						*out = append(*out, "FForeign")
+						break
+					}
+				}
+			}
 			if id, ok := x.Fun.(*ast.Ident); ok && (id.Name == "len" || id.Name == "delete") && len(x.Args) > 0 {
 				if r, f, ok := clSelector(x.Args[0]); ok && r == recv && clGuardedMaps[f] {
 					if id.Name == "delete" {
@@ -209,6 +233,9 @@ func clStmt(recv string, locked map[string]bool, st ast.Stmt, p clPath) []clPath
 			switch cc := c.(type) {
 			case *ast.CommClause:
 				body = cc.Body
+				if cc.Comm != nil {
+					body = append([]ast.Stmt{cc.Comm}, cc.Body...)
+				}
 			case *ast.CaseClause:
 				body = cc.Body
 			}
@@ -264,14 +291,52 @@ func clFile(repo, rel, typ string) ([]clMethod, error) {
 	}
 	var out []clMethod
 	for _, d := range decls {
+		clForeignParams = map[string]bool{}
+		for _, fl := range d.fd.Type.Params.List {
+			basic := false
+			switch t := fl.Type.(type) {
+			case *ast.ArrayType:
+				basic = true
+			case *ast.Ident:
+				switch t.Name {
+				case "string", "bool", "int", "int32", "int64", "uint", "uint32", "uint64", "byte", "error", "float64":
+					basic = true
+				}
+			}
+			if !basic {
+				for _, n := range fl.Names {
+					clForeignParams[n.Name] = true
+				}
+			}
+		}
 		paths := clStmts(d.recv, locked, d.fd.Body.List, []clPath{{}})
+		clForeignParams = map[string]bool{}
 		m := clMethod{name: typ + "." + d.fd.Name.Name}
 		seen := map[string]bool{}
+		fseen := map[string]bool{}
 		for _, p := range paths {
-			k := fmt.Sprint(p.evs)
-			if !seen[k] {
+			var evs, fevs []clEvent
+			for _, e := range p.evs {
+				switch e {
+				case "FForeign":
+					fevs = append(fevs, e)
+				case "CLock", "CRLock":
+					evs, fevs = append(evs, e), append(fevs, "FLock")
+				case "CUnlock", "CRUnlock":
+					evs, fevs = append(evs, e), append(fevs, "FUnlock")
+				case "CDeferUnlock", "CDeferRUnlock":
+					evs, fevs = append(evs, e), append(fevs, "FDeferUnlock")
+				default:
+					evs = append(evs, e)
+				}
+			}
+			if k := fmt.Sprint(evs); !seen[k] {
 				seen[k] = true
-				m.paths = append(m.paths, p.evs)
+				m.paths = append(m.paths, evs)
+			}
+			if k := fmt.Sprint(fevs); !fseen[k] {
+				fseen[k] = true
+				m.fpaths = append(m.fpaths, fevs)
 			}
 		}
 		out = append(out, m)
@@ -290,6 +355,10 @@ func emitCtxLockSites(repo, out string) error {
 	b.WriteString("               | CRead | CWrite      (* access to a map guarded by the receiver's mutex *)\n")
 	b.WriteString("               | CCallLocking.       (* call of a method of the same receiver that takes the lock itself *)\n\n")
 	b.WriteString("Record clmethod := mkclm { cl_name : string; cl_paths : list (list clev) }.\n\n")
+	b.WriteString("(** the same paths seen as lock operations (read or write lock alike) and the operations during which code of the\n")
+	b.WriteString("    caller runs or the goroutine may block for as long as someone else pleases: a method of a parameter of\n")
+	b.WriteString("    interface / channel / function type, a function handed such a parameter, a channel send *)\n")
+	b.WriteString("Inductive fev := FLock | FUnlock | FDeferUnlock | FForeign.\n\n")
 	total := 0
 	for _, src := range []struct{ rel, typ, def string }{
 		{"lib/go/context.go", "FContextImpl", "context_methods"},
@@ -315,6 +384,23 @@ func emitCtxLockSites(repo, out string) error {
 			}
 			fmt.Fprintf(&b, "  mkclm %q [%s]%s\n", m.name, strings.Join(ps, "; "), sep)
 			total += len(m.paths)
+		}
+		b.WriteString("].\n\n")
+		fmt.Fprintf(&b, "Definition %s_foreign : list (string * list (list fev)) := [\n", strings.TrimSuffix(src.def, "_methods"))
+		for i, m := range ms {
+			var ps []string
+			for _, p := range m.fpaths {
+				var es []string
+				for _, e := range p {
+					es = append(es, string(e))
+				}
+				ps = append(ps, "["+strings.Join(es, "; ")+"]")
+			}
+			sep := ";"
+			if i == len(ms)-1 {
+				sep = ""
+			}
+			fmt.Fprintf(&b, "  (%q, [%s])%s\n", m.name, strings.Join(ps, "; "), sep)
 		}
 		b.WriteString("].\n\n")
 	}
